@@ -69,4 +69,56 @@ def cases_stats(tier, rng):
                [{"cpu": {"pct": float(rng.randint(0, 100))}, "mem": {"used": float(rng.randint(0, 10**6))}} for _ in range(n)]}
 
 
-HARNESSES = {"ResourceMonitorAggregator.update_resource_stats": (cases_stats, run_stats)}
+def run_finalize(S, case):
+    """BOUNDED stand-in for ResourceMonitorAggregator.finalize (not under contract): the report written at the end of a batch carries,
+    for every monitored cell, the true maximum, minimum and mean (= sum / number of samples) of the samples, and nothing is written
+    when no sample was taken."""
+    import json, os, tempfile, shutil
+    cpu, mem = RM.CpuStatsViewer.metric(), RM.MemoryStatsViewer.metric()
+    ren = {"cpu": cpu, "mem": mem}
+    case = {"samples": [{ren[rt]: d for rt, d in s.items()} for s in case["samples"]]}
+    agg, orig, state = mk(case)
+    tmp = tempfile.mkdtemp(prefix="verif_stats_")
+    os.makedirs(os.path.join(tmp, RM.STATS_DIR))          # part of the output-directory layout created at submission time
+    out = {"pre_ok": True, "ok": True, "failed": []}
+    try:
+        n = len(case["samples"]) - 1
+        for _ in range(n):
+            agg.update_resource_stats()
+        agg.finalize(tmp)
+        path = os.path.join(tmp, RM.STATS_DIR, "b_resource_stats.json")
+        if n == 0:
+            if os.path.exists(path):
+                out["ok"] = False
+                out["failed"].append("a report was written although no sample was taken")
+            return out
+        if not os.path.exists(path):
+            return {"pre_ok": True, "ok": False, "failed": [f"no report at {path} after {n} samples"]}
+        rows = json.load(open(path))
+        for rt in case["samples"][0]:
+            ent = [r for r in rows if r.get("type") == rt]
+            if len(ent) != 1:
+                out["ok"] = False
+                out["failed"].append(f"{len(ent)} report entries of type {rt}, expected exactly one")
+                continue
+            for sn in case["samples"][0][rt]:
+                vals = [s[rt][sn] for s in case["samples"][1:]]
+                want = {"maximum": max(vals), "minimum": min(vals), "average": sum(vals) / len(vals)}
+                for k, w in want.items():
+                    got = ent[0].get(k, {}).get(sn)
+                    if got is None or abs(got - w) > 1e-9 * max(1.0, abs(w)):
+                        out["ok"] = False
+                        out["failed"].append(f"report cell {rt}.{sn}.{k} = {got}, true value {w} for samples {vals}")
+        return out
+    finally:
+        RM.ResourceMonitorAggregator._get_stats = orig
+        shutil.rmtree(tmp, ignore_errors=True)
+
+
+def cases_finalize(tier, rng):
+    yield {"samples": [{"cpu": {"pct": 0.0}, "mem": {"used": 0.0}}]}          # no sample: no report
+    yield from cases_stats(tier, rng)
+
+
+HARNESSES = {"ResourceMonitorAggregator.update_resource_stats": (cases_stats, run_stats),
+             "ResourceMonitorAggregator.finalize": (cases_finalize, run_finalize)}
